@@ -1,12 +1,16 @@
 package main
 
 import (
+	"bytes"
+	gocontext "context"
 	"fmt"
 	"sort"
 	"strconv"
 	"strings"
 	"sync"
 	"time"
+
+	"github.com/brutella/hc/hap"
 )
 
 func init() { families["connw"] = runConnWrite }
@@ -34,7 +38,15 @@ func runConnWrite(id string, toks []string) (res string) {
 		n, _ := strconv.Atoi(s)
 		pref = append(pref, n)
 	}
-	payloads := toks[3:]
+	var payloads []string
+	keepAlive := false
+	for _, t := range toks[3:] {
+		if t == "KA" { // a keep-alive writer (hap.KeepAlive, 1 ms period) runs alongside
+			keepAlive = true
+		} else {
+			payloads = append(payloads, t)
+		}
+	}
 	sc, con, ctx := newScripted(nil)
 	sc.gate = make(chan *gatedWrite, 64)
 	sess, err := newServerSession(k)
@@ -44,6 +56,17 @@ func runConnWrite(id string, toks []string) (res string) {
 	s := ctx.GetSessionForConnection(sc)
 	s.SetCryptographer(sess)
 	s.Decrypter() // promote the cryptographer as a first read would
+	var kaMsg []byte
+	kaStop := func() {}
+	if keepAlive {
+		var b bytes.Buffer
+		hap.NewNotification(new(bytes.Buffer)).Write(&b)
+		kaMsg = hap.FixProtocolSpecifier(b.Bytes())
+		kctx, cancel := gocontext.WithCancel(gocontext.Background())
+		kaStop = cancel
+		go hap.NewKeepAlive(time.Millisecond, ctx).Start(kctx)
+		time.Sleep(3 * time.Millisecond) // the first tick is on its way when the writers start
+	}
 	var wg sync.WaitGroup
 	for _, p := range payloads {
 		wg.Add(1)
@@ -110,6 +133,21 @@ func runConnWrite(id string, toks []string) (res string) {
 		default:
 		}
 	}
+	// stop the keep-alive and let its last (held) writes through
+	kaStop()
+	for quiet := 0; keepAlive && quiet < 2; {
+		select {
+		case g := <-sc.gate:
+			close(g.release)
+			quiet = 0
+		case <-time.After(grace / 2):
+			quiet++
+		}
+		for _, g := range pending {
+			close(g.release)
+		}
+		pending = nil
+	}
 	sc.mu.Lock()
 	var stream []byte
 	for _, w := range sc.written {
@@ -126,12 +164,51 @@ func runConnWrite(id string, toks []string) (res string) {
 	for _, p := range payloads {
 		want = append(want, p)
 	}
-	got := splitPerm(hx(pt), want)
+	plain := hx(pt)
+	nka := 0
+	if keepAlive {
+		// keep-alive messages may stand between payloads, never inside one
+		plain, nka = stripBetween(plain, hx(kaMsg), want)
+	}
+	got := splitPerm(plain, want)
 	if got == nil {
 		return fmt.Sprintf("interleaved-plaintext maxpending=%d", maxPending)
 	}
 	sort.Strings(got)
+	if keepAlive {
+		return fmt.Sprintf("ok %s ka=%d", strings.Join(got, ","), nka)
+	}
 	return "ok " + strings.Join(got, ",")
+}
+
+// stripBetween removes occurrences of ka that stand at a payload boundary: scanning from the left, at each position
+// either a keep-alive message or one of the remaining payloads must start
+func stripBetween(s, ka string, parts []string) (string, int) {
+	var out strings.Builder
+	n := 0
+	rest := append([]string{}, parts...)
+	for len(s) > 0 {
+		if strings.HasPrefix(s, ka) {
+			s = s[len(ka):]
+			n++
+			continue
+		}
+		hit := -1
+		for i, p := range rest {
+			if strings.HasPrefix(s, p) {
+				hit = i
+				break
+			}
+		}
+		if hit < 0 {
+			out.WriteString(s) // leave the rest: splitPerm will reject it
+			break
+		}
+		out.WriteString(rest[hit])
+		s = s[len(rest[hit]):]
+		rest = append(rest[:hit], rest[hit+1:]...)
+	}
+	return out.String(), n
 }
 
 // splitPerm tries to read s as a concatenation of a permutation of parts
